@@ -48,15 +48,18 @@ int main(VF_MAIN_ARGS)
     ok = parse_number(&item, &buf);
 
     VF_AP(1, memcmp(content, IN.b, M) == 0, "C01 input not written");
-    VF_AP(1, vf_live == 0 && vf_nreq == 0, "C01 parse_number allocates nothing");
+    VF_AP(1, vf_live == 0, "C01 parse_number leaves no allocation behind");
     VF_AP(10, buf.offset <= buf.length, "C10 offset stays inside the buffer");
     if (ok) {
         VF_AP(10, buf.offset > off, "C10 success consumes at least one byte");
         VF_AP(2, item.type == cJSON_Number, "C02 type is number");
+        if (vf_strtod_calls == 1) {
         VF_AP(2, (item.valuedouble == vf_strtod_ret) || (item.valuedouble != item.valuedouble && vf_strtod_ret != vf_strtod_ret), "C02 valuedouble is the value strtod returned");
+        VF_AP(3, buf.offset - off == vf_strtod_consumed, "C03 the number token ends exactly where the C library stopped reading (no further bytes are swallowed)");
         if (vf_strtod_ret >= INT_MAX) VF_AP(2, item.valueint == INT_MAX, "C02 valueint saturates at INT_MAX");
         else if (vf_strtod_ret <= (double)INT_MIN) VF_AP(2, item.valueint == INT_MIN, "C02 valueint saturates at INT_MIN");
         else if (vf_strtod_ret == vf_strtod_ret) VF_AP(2, item.valueint == (int)vf_strtod_ret, "C02 valueint is the double truncated toward zero");
+        }
         VF_WITNESS("accepted");
     } else {
         VF_AP(10, buf.offset == off, "C10 failed parse_number leaves the offset");
@@ -89,10 +92,19 @@ int main(VF_MAIN_ARGS)
     if (lit > 0 && lit <= 63 && (lit == avail || !numchar(content[off + lit]))) {
         VF_AP(2, ok, "C02 RFC 8259 number literal is accepted");
         VF_AP(2, buf.offset == off + lit, "C02 offset advances by the literal length");
-        VF_AP(2, vf_strtod_calls == 1 && vf_strtod_arglen == lit, "C02 strtod receives exactly the literal");
-        for (k = 0; k < lit; k++) {
-            unsigned char want = content[off + k] == '.' ? vf_dp() : content[off + k];
-            VF_AP(2, (unsigned char)vf_strtod_arg[k] == want, "C02 strtod receives the literal bytes with the locale decimal point");
+        if (vf_strtod_calls == 1) {
+            VF_AP(2, vf_strtod_arglen == lit, "C02 strtod receives exactly the literal");
+            for (k = 0; k < lit; k++) {
+                unsigned char want = content[off + k] == '.' ? vf_dp() : content[off + k];
+                VF_AP(2, ((unsigned char *)vf_strtod_arg)[k] == want, "C02 strtod receives the literal bytes with the locale decimal point");
+            }
+        } else {
+            /* conversion without the C library: decided here for integer literals of up to 19 digits against the exactly rounded value
+             * (unsigned 64 bit accumulation is exact, its conversion to double rounds to nearest); other literals cannot be decided */
+            size_t first = content[off] == '-' ? 1 : 0; int plain = lit - first <= 19 && lit > first; unsigned long u = 0;
+            for (k = first; k < lit; k++) { if (!dig(content[off + k])) plain = 0; else u = u * 10 + (unsigned long)(content[off + k] - '0'); }
+            VF_BOUND(plain, "number converted without strtod and not a plain integer of <= 19 digits: value cannot be decided");
+            if (plain && ok) VF_AP(2, item.valuedouble == (first ? -(double)u : (double)u), "C02 integer literal decodes to the correctly rounded double");
         }
         VF_WITNESS("rfc-literal");
     }
